@@ -282,17 +282,17 @@ Definition ip_okb (ip : option bytes) : bool :=
   match ip with Some b => (zlen b =? 4) || (zlen b =? 16) | None => false end.
 Definition inet_okb (i : option Inet) : bool :=
   match i with Some i => ip_okb (inet_addr i) && i32b (inet_port i) | None => false end.
-Definition norm_ip (ip : option bytes) : option bytes :=
+Definition norm_ip16 (ip : option bytes) : option bytes :=
   match ip with Some b => ip_to16 b | None => None end.
 Definition norm_oinet (i : option Inet) : option Inet :=
-  match i with Some i => Some {| inet_addr := norm_ip (inet_addr i); inet_port := inet_port i |} | None => None end.
+  match i with Some i => Some {| inet_addr := norm_ip16 (inet_addr i); inet_port := inet_port i |} | None => None end.
 
 (* reason map entries: non-nil pointer, a 4- or 16-byte address, a valid failure code *)
 Definition reason_okb (r : option FailureReason) : bool :=
   match r with Some r => ip_okb (fr_endpoint r) && FailureCode_IsValid (fr_code r) | None => false end.
 Definition reasons_okb (l : list (option FailureReason)) : bool := (zlen l <=? 2147483647) && forallb reason_okb l.
 Definition norm_reason (r : option FailureReason) : option FailureReason :=
-  match r with Some r => Some {| fr_endpoint := norm_ip (fr_endpoint r); fr_code := fr_code r |} | None => None end.
+  match r with Some r => Some {| fr_endpoint := norm_ip16 (fr_endpoint r); fr_code := fr_code r |} | None => None end.
 
 Definition simple_error_okb (msg : bytes) : bool := str16 msg.
 
